@@ -46,6 +46,9 @@ pub struct Doc {
     pub trailing_nl: u8,
     pub leading_blank: u8,
     pub gap: u8,
+    /// no blank line between a paragraph and a fenced code block next to it (a fence may
+    /// interrupt a paragraph, and text may follow a closing fence directly)
+    pub glue_fence: bool,
 }
 
 /// Destinations a generated link may use.
@@ -578,6 +581,7 @@ fn no_dash_rule_in_quote(bs: &mut Vec<Blk>, in_quote: bool) {
 pub fn doc(cfg: &DocCfg) -> BoxedStrategy<Doc> {
     let dash_rule_in_quote = cfg.on("dash_rule_in_quote");
     let adjacent_lists = cfg.on("adjacent_lists");
+    let glue_on = cfg.on("glue_fence");
     let no_trailing_nl = cfg.on("no_trailing_newline");
     let front_on = cfg.on("front_matter");
     let crlf_on = cfg.on("crlf");
@@ -664,6 +668,7 @@ pub fn doc(cfg: &DocCfg) -> BoxedStrategy<Doc> {
                 trailing_nl: if no_trailing_nl { trailing_nl } else { trailing_nl.max(1) },
                 leading_blank: if leading == 0 { 1 } else { 0 },
                 gap: if gap == 0 { 2 } else { 1 },
+                glue_fence: glue_on && (gap == 1 || gap == 2),
             };
             number_from(&mut d, start_no);
             d
@@ -726,6 +731,7 @@ fn number_blk(b: &mut Blk, n: &mut u32) {
 
 struct R {
     refdefs: Vec<(String, String)>,
+    glue_fence: bool,
 }
 
 fn render_inl(r: &mut R, i: &Inl, out: &mut String) {
@@ -949,7 +955,10 @@ fn render_blocks(r: &mut R, bs: &[Blk], gap: usize, in_item: bool) -> Vec<String
                 && (matches!(b, Blk::List { loose: false, ordered: false, .. })
                     || matches!(b, Blk::List { loose: false, ordered: true, start: 1, .. }))
                 && matches!(bs[0], Blk::Para(_));
-            if !tight_nested {
+            let fence = |b: &Blk| matches!(b, Blk::Code { fenced: true, .. });
+            let para = |b: &Blk| matches!(b, Blk::Para(_));
+            let glued = r.glue_fence && ((fence(&bs[i - 1]) && para(b)) || (para(&bs[i - 1]) && fence(b)));
+            if !tight_nested && !glued {
                 for _ in 0..gap {
                     out.push(String::new());
                 }
@@ -961,7 +970,7 @@ fn render_blocks(r: &mut R, bs: &[Blk], gap: usize, in_item: bool) -> Vec<String
 }
 
 pub fn render(d: &Doc) -> String {
-    let mut r = R { refdefs: vec![] };
+    let mut r = R { refdefs: vec![], glue_fence: d.glue_fence };
     let mut lines: Vec<String> = vec![];
     if let Some(f) = &d.front {
         lines.push("---".into());
